@@ -1,1 +1,33 @@
-/-! # C18 — property theorems (not built yet) -/
+import RsMatterVerif.Lemmas.Btp
+/-!
+# C18 — BTP delivers each message intact, once and in order, or fails cleanly
+
+Property theorems over `Model/Btp.lean` / `Model/BtpLink.lean`.
+-/
+namespace C18
+open Btp
+
+/-- **Hostile peer, clause "can not crash the node"**: for every session state satisfying the
+invariant, every GATT MTU, every byte string and every instant, `Session::process_rx` returns
+either a new state satisfying the invariant or a clean error (`Fail.isPanic = false`); on an error
+the state is unchanged (the model returns `Except`, the caller keeps the old state). -/
+theorem process_rx_total (s : Session) (hs : SInv s) (g : Option Nat) (data : List Nat)
+    (hd : Bytes data) (now : Nat) :
+    (∃ s', s.processRx g data now = .ok s' ∧ SInv s') ∨
+    (∃ e, s.processRx g data now = .error e ∧ e.isPanic = false) := by
+  have c := processRx_clean s hs g data hd now
+  cases h : s.processRx g data now with
+  | ok s' => rw [h] at c; exact .inl ⟨s', rfl, c⟩
+  | error e => rw [h] at c; exact .inr ⟨e, rfl, c⟩
+
+/-- the invariant holds initially (`Session::new` + `set_initiator` + `set_relaxed_mtu_nego`) -/
+theorem inv_init (initiator relaxed : Bool) : SInv (Session.fresh initiator relaxed) :=
+  sinv_fresh initiator relaxed
+
+/-- Non-vacuity: an established responder state satisfying the invariant exists (handshake request
+with MTU 23 and window 5 processed by a fresh responder). -/
+example : ∃ s, (Session.fresh false false).processRx none [0x65, 0x6c, 4, 0, 0, 0, 23, 0, 5] 0 = .ok s ∧
+    s.established = true ∧ s.windowSize = 5 ∧ s.mtu = 20 := by
+  exact ⟨_, rfl, rfl, rfl, rfl⟩
+
+end C18
